@@ -413,6 +413,7 @@ func runC15(r *Report) {
 	c15R4(r)
 	// a reply is decoded from the bytes that were read, not from what a short read left in the buffer
 	readCountsUsed(r, "R4", map[string]bool{"tracker": true}, 1)
+	readFullChecked(r, "R4", map[string]bool{"tracker": true}, 1)
 	c15R5(r)
 	c15Bounded(r, "R1")
 	atomicWrites(r, "R1", objNamed("tracker", "locked"), 1)
